@@ -2,6 +2,7 @@
 from engines import mutsim
 PROPERTY = "C09"
 ENGINE = "gridsim/mut"
+SPIN_IS_VIOLATION = True   # the property promises an outcome: an operation that never returns to the reactor violates it
 LEVEL = "exploration"
 COUNTS = {"quick": 900, "thorough": 20000}
 CHUNK = 25
